@@ -404,8 +404,43 @@ def build_classes(spec, token, unit=1):
         else:
             raise ValueError(op)
         cname = "P_" + name
+        _install_mutation_points(body, base)
         classes.append(type(cname, (base,), body))
     return classes
+
+
+def _install_mutation_points(body, base):
+    """C12: let a case replace the result of the k-th compute call of one plugin (for down-chunking plugins: the
+    k-th yielded chunk) by a contract-violating one, right where strax receives it (`_fix_output`).
+    RUNTIME[token]["mutate"] = dict(name=node, k=index, fn=callable(plugin, result, start, end) -> result)."""
+    import types as _types
+
+    base_fix = base._fix_output
+
+    def _fix_output(self, result, start, end, superrun, subruns, _dtype=None):
+        rt = RUNTIME.get(self._vf_token) or {}
+        m = rt.get("mutate")
+        if m and m["name"] == self._vf_name and _dtype is None:
+            if isinstance(result, _types.GeneratorType):
+                orig = result
+
+                def gen():
+                    for x in orig:
+                        i = rt.setdefault("yielded", collections.Counter())[self._vf_name]
+                        rt["yielded"][self._vf_name] += 1
+                        if i == m["k"]:
+                            rt["mutated"] = True
+                            x = m["fn"](self, x, start, end)
+                        yield x
+
+                result = gen()
+            elif rt["calls"][self._vf_name] - 1 == m["k"]:
+                rt["mutated"] = True
+                result = m["fn"](self, result, start, end)
+        return base_fix(self, result, start, end, superrun, subruns, _dtype=_dtype)
+
+    body["_fix_output"] = _fix_output
+
 
 
 # ----------------------------------------------------------------------------------------------------
